@@ -90,7 +90,7 @@ def tables_close(a, b, tol_of):
 class C05(Prop):
     id = "C05"
     anchored = ["src/pewlib/io/imzml.py"]
-    cases = {"quick": 260, "thorough": 7000}
+    cases = {"quick": 1500, "thorough": 40000}
     rule = ("synthetic imzML/ibd pairs: images 1x1..4x4, random subsets of pixels (also none), per-pixel or shared m/z axes of "
             "1..8 strictly increasing dyadic values, f32/f64 arrays, TIC stored/absent, image size present/absent; 1..5 target "
             "masses with ppm or absolute widths whose edges are exactly representable, spectra drawn from a grid plus the window "
@@ -332,7 +332,7 @@ class C05(Prop):
                 ib = impl["binned"]
                 parts_spec["binned"] = "data" in ib and bool(brep["cover"]) and tables_close(ib["data"], spec["binned"]["data"], tol)
                 parts_model["binned"] = "data" in ib and ib["bins"] == model["binned"]["bins"] \
-                    and tables_close(ib["data"], model["binned"]["data"], tol)
+                    and self.binned_matches_model(ib["data"], model["binned"]["data"], spec["binned"]["data"], brep["dense"], tol)
 
         # undetermined: real stream with a peak within 1e-9 relative of a window edge
         undet = False
@@ -356,10 +356,28 @@ class C05(Prop):
                         if not tables_close([[px]], [[sdata[r][c]]], lambda *_: tol(r, c)) and brep["dense"][r][c] is not False:
                             bad_dense += 1
             note["binned"] = {"cover": bool(brep["cover"]), "same_shape": same_shape, "bad_dense_pixels": bad_dense,
-                              "matches_defect_model": bool(parts_model.get("binned"))}
+                              "matches_defect_model": ib["bins"] == model["binned"]["bins"]
+                              and tables_close(ib["data"], model["binned"]["data"], tol)}
         feats = self.features(case, rep, brep, dspecs)
         return outcome(impl, model, spec, spec_ok=all(parts_spec.values()), model_ok=all(parts_model.values()),
                        undetermined=undet, hyp=bool(rep["hyp"]), features=feats, note=json.dumps(note, sort_keys=True))
+
+    @staticmethod
+    def binned_matches_model(idata, mdata, sdata, dense, tol):
+        """correspondence for binned_masses: every pixel equals the mechanism model (the documented, unrepaired
+        behaviour); on pixels outside the proved class (a bin without a peak) the specified value is accepted too,
+        so that a correct repair of the known finding is not reported as a broken tie"""
+        if len(idata) != len(mdata) or any(len(a) != len(b) for a, b in zip(idata, mdata)):
+            return False
+        for r, row in enumerate(idata):
+            for c, px in enumerate(row):
+                t = lambda *_: tol(r, c)
+                if tables_close([[px]], [[mdata[r][c]]], t):
+                    continue
+                if dense[r][c] is False and tables_close([[px]], [[sdata[r][c]]], t):
+                    continue
+                return False
+        return True
 
     @staticmethod
     def le(a, b):
